@@ -158,6 +158,8 @@ def represent(kets, rhos, rep, field, dtypes=None):
             a = np.array(kets[i]).reshape(-1)
         elif rep == "col":
             a = np.array(kets[i]).reshape(-1, 1)
+        elif rep == "row":
+            a = np.array(kets[i]).reshape(1, -1)
         else:
             raise ValueError(rep)
         if field == "real":
